@@ -844,6 +844,7 @@ class FragmentSender(object):
 
         self.fragments = []
         self.acks = []
+        self.seqs = [] # message seqnum used to send each fragment
 
     def build(self, payload):
 
@@ -874,12 +875,19 @@ class FragmentSender(object):
 
     def callback(self, index, success):
 
+        if self.acks[index]:
+            # already acked by another datagram that contained this fragment
+            return
+
         if not success and self.retry != RetryMode.NONE:
-            # resend the fragment that timed out
+            # resend the fragment that timed out. reuse the message seqnum so
+            # that remote can tell if it already received this fragment
             cbk = lambda success, idx=index: self.callback(idx, success)
             payload = struct.pack(">HHH", self.frag_id, 1 + index, len(self.fragments))
             payload += self.fragments[index]
-            self.conn._send_type(PacketType.APP_FRAGMENT, payload, self.retry, cbk)
+            msg = PendingMessage(self.seqs[index], PacketType.APP_FRAGMENT,
+                payload, cbk, self.retry)
+            self.conn.outgoing_messages.append(msg)
         else:
             self.acks[index] = success
 
@@ -1077,6 +1085,7 @@ class ConnectionBase(object):
 
             for frag, cbk in sender.build(payload):
                 self._send_type(PacketType.APP_FRAGMENT, frag, retry, cbk)
+                sender.seqs.append(self.seq_message)
 
             self.pending_fragments[self.seq_fragment] = sender
 
